@@ -1,6 +1,7 @@
 """C09 transport failures terminate cleanly: the C03 driver behind a cutting TCP proxy, one cut offset per run, traces validated
 against MpxChanTrace.tla with the Fail action; recovery probe after every fault (DESIGN 4 C09)."""
 from vlib import chanfam as cf
+from vlib import wakefam
 
 
 def run(ctx):
@@ -27,7 +28,13 @@ def run(ctx):
                           {"trace": path, "event_index": rejected, "event": ev})
         if not samples:
             samples = [{"run": k + 1, "cut_offset_range": [k * step, k * step + step - 1]} for k in (0, 1, n - 1)]
+    cr, csum = wakefam.run_create(ctx)
     ctx.coverage = {
+        "create_during_close": {"model": "MpxCreate.tla", "schedules_replayed": csum["schedules"], "steps": csum["steps"],
+                                "spec_states": cr.distinct,
+                                "rule": "every interleaving of Conn.Channel's check / insert / re-check / remove steps with the closing "
+                                        "connection's flag / sweep steps, replayed on a real connection whose peer drops it; the call returns "
+                                        "what the model says and every channel handed out or already open is terminated"},
         "evaluations": runs, "distinct_nontrivial": runs,
         "rule": "one run per cut offset k (k-th run cuts after a byte count in [k*step, k*step+step)) in a direction chosen per run "
                 "(client->server or server->client); offsets cover the protocol line, the handshake messages, frame boundaries, "
